@@ -133,7 +133,7 @@ int main(int argc, char **argv) {
             for (char *c = ln; *c; c++) if (*c == '\n') *c = ' ';
             printf("CGREF idx=%llu %s\n", (unsigned long long)i, ln);
         }
-        else if (WIFEXITED(st) && WEXITSTATUS(st) >= 20) {
+        else if (do_codegen == 2 && WIFEXITED(st) && WEXITSTATUS(st) >= 20 && WEXITSTATUS(st) <= 20 + 13) {
             acc++;
             char tail[400] = {0}; off_t sz = sb.st_size, from = sz > 399 ? sz - 399 : 0;
             if (pread(efd, tail, (size_t)(sz - from), from) < 0) tail[0] = 0;
@@ -147,7 +147,18 @@ int main(int argc, char **argv) {
             bad++;
             if (WIFSIGNALED(st)) printf("BAD idx=%llu class=%s%d\n", (unsigned long long)i, WTERMSIG(st) == SIGALRM ? "timeout-signal" : "signal", WTERMSIG(st));
             else if (WEXITSTATUS(st) == 1) printf("BAD idx=%llu class=silent-reject\n", (unsigned long long)i);
-            else printf("BAD idx=%llu class=exit%d\n", (unsigned long long)i, WEXITSTATUS(st));
+            else {
+                /* a sanitizer abort carries its own exit status (ASAN_OPTIONS exitcode): report what it found */
+                char *txt = malloc((size_t)sb.st_size + 1); const char *sum = "";
+                if (txt && pread(efd, txt, (size_t)sb.st_size, 0) == (ssize_t)sb.st_size) {
+                    txt[sb.st_size] = 0;
+                    char *q = strstr(txt, "SUMMARY: ");
+                    if (!q) q = strstr(txt, "runtime error: ");
+                    if (q) { char *nl = strchr(q, '\n'); if (nl) *nl = 0; sum = q; }
+                }
+                printf("BAD idx=%llu class=exit%d %s\n", (unsigned long long)i, WEXITSTATUS(st), sum);
+                free(txt);
+            }
         }
     }
     printf("STAT cases=%llu accepted=%lu rejected=%lu codegen_refused=%lu bad=%lu\n", (unsigned long long)(hi - lo), acc, rej, cgref, bad);
